@@ -5,7 +5,7 @@ import random
 from fractions import Fraction
 
 from . import families as F
-from .stubs import RngStub, patch_unbound_generator_defaults
+from .stubs import PyRandomStub, RngStub, patch_unbound_generator_defaults
 
 ID = "C10"
 HEAVY = False
@@ -34,7 +34,9 @@ SAM_KEYS = {"xos", "xos_one", "xos2", "xos3", "xos12", "xos_norm_additive", "xos
             "xos12_norm_additive", "xs", "oxs", "xs2", "xs3", "xs6", "k_budget_generator", "covg_fn_generator"}
 IGNORES_RNG = {"predictible_factory", "xos_one"}
 CONCRETE_ONLY_PREFIX = ("graph",)
-CONCRETE_EXCEPT = {"graph_cycle"}
+# networkx families whose sampling code is pure Python and accepts a random.Random-typed stub: explored symbolically
+NX_SYMBOLIC = {"graph_random", "graph_ws_connected"}
+CONCRETE_EXCEPT = {"graph_cycle"} | NX_SYMBOLIC
 SKIP = {"convex"}
 
 
@@ -63,7 +65,7 @@ def _is_concrete_only(key):
     return key.startswith(CONCRETE_ONLY_PREFIX) and key not in CONCRETE_EXCEPT
 
 
-CHEAP = {"factory", "factory_one", "factory_fixed", "factory_square", "factory_exp", "noisy_factory", "noisy_factory_fixed",
+CHEAP = {"graph_random", "factory", "factory_one", "factory_fixed", "factory_square", "factory_exp", "noisy_factory", "noisy_factory_fixed",
          "noisy_factory_square", "noisy_factory_exp", "factory_cheerleader", "factory_cheerleader_next", "k_budget_generator",
          "xs", "xos2", "additive", "graph_cycle", "predictible_factory"}
 
@@ -135,7 +137,8 @@ def scenario(pk, params, inp):
             vals = [float(x) for x in g.get_values()]
             res["values"].append(vals[0])
         return res
-    rng1 = RngStub(inp)
+    Stub = PyRandomStub if key in NX_SYMBOLIC else RngStub
+    rng1 = Stub(inp)
     g1 = gen(n, rng1)
     out = {"concrete": False, "players": int(g1.number_of_players), "values": _tab(pk, g1, n), "draws": rng1.k,
            "all_known": bool(np.all(g1.are_values_known())) if hasattr(g1, "are_values_known") else True}
@@ -162,16 +165,16 @@ def scenario(pk, params, inp):
                 return inp.choose(m, label)
         # a call with a DIFFERENT player count in between (fixed, unquantified draws): per-size caches must not leak
         try:
-            gen(n + 2, RngStub(_FixedInp(inp.mode), prefix="mid"))
+            gen(n + 2, Stub(_FixedInp(inp.mode), prefix="mid"))
         except Exception as e:  # noqa: BLE001
             out["mid_exception"] = type(e).__name__
         if inp.mode == "sym":
             rp = _Replay()
-            g2 = gen(n, RngStub(rp))
+            g2 = gen(n, Stub(rp))
         else:
             saved = inp._ci
             inp._ci = 0
-            g2 = gen(n, RngStub(inp))
+            g2 = gen(n, Stub(inp))
             inp._ci = max(saved, inp._ci)
         out["values2"] = _tab(pk, g2, n)
     return out
